@@ -90,18 +90,33 @@ Fixpoint set_nth {A : Type} (i : nat) (v : A) (l : list A) : list A :=
   | x :: r, S j => x :: set_nth j v r
   end.
 
-(* Tree._add_child(father, split):
+(* l[i] = v  raises IndexError when i is out of range *)
+Definition store {A : Type} (i : nat) (v : A) (l : list A) : option (list A) :=
+  if i <? length l then Some (set_nth i v l) else None.
+
+(* print(tok); rest      and      print_node(child); rest      (used by the regenerated Gen/KauriPrintRules.v) *)
+Definition emit {A : Type} (a : A) (k : option (list A)) : option (list A) := do r <- k; Some (a :: r).
+Definition emit_all {A : Type} (l : option (list A)) (k : option (list A)) : option (list A) :=
+  do a <- l; do r <- k; Some (a ++ r).
+
+(* Tree._add_child(father, split), in statement order:
      children_left[father] = n_nodes; children_right[father] = n_nodes + 1
      thresholds[father] = split.threshold; features[father] = split.feature
-     every list += two entries (-1 / None / depths[father]+1 / the two targets); n_nodes += 2 *)
+     every list += two entries (-1 / None / depths[father]+1 / the two targets); n_nodes += 2
+   (gains and categorical_nodes are not modelled: they are neither printed nor, for a non-categorical
+   tree, read by predict) *)
 Definition add_child (t : tree T) (father : nat) (s : split T) : option (tree T) :=
-  do d <- nth_error (depths t) father;
   let n := n_nodes t in
+  do cl <- store father (Z.of_nat n) (children_left t);
+  do cr <- store father (Z.of_nat (n + 1)) (children_right t);
+  do th <- store father (Some (s_threshold s)) (thresholds t);
+  do ft <- store father (Some (s_feature s)) (features t);
+  do d <- nth_error (depths t) father;
   Some (mkTree
-    (set_nth father (Z.of_nat n) (children_left t) ++ [(-1)%Z; (-1)%Z])
-    (set_nth father (Z.of_nat (n + 1)) (children_right t) ++ [(-1)%Z; (-1)%Z])
-    (set_nth father (Some (s_feature s)) (features t) ++ [None; None])
-    (set_nth father (Some (s_threshold s)) (thresholds t) ++ [None; None])
+    (cl ++ [(-1)%Z; (-1)%Z])
+    (cr ++ [(-1)%Z; (-1)%Z])
+    (ft ++ [None; None])
+    (th ++ [None; None])
     (target t ++ [s_left s; s_right s])
     (depths t ++ [d + 1; d + 1])
     (n + 2)).
@@ -160,7 +175,7 @@ Definition used_features (t : tree T) : list nat :=
   flat_map (fun o => match o with Some f => [f] | None => [] end) (features t).
 (* if len(used_features) > 0 and len(feature_names) <= max(used_features): raise ValueError *)
 Definition names_guard_rejects (t : tree T) (ns : list N) : bool :=
-  negb (length (used_features t) =? 0) && (length ns <=? list_max (used_features t)).
+  (0 <? length (used_features t)) && (length ns <=? list_max (used_features t)).
 
 (* print_kauri_tree: @constraint_params (kauri_tree: Kauri instance; feature_names: array-like or
    None), isinstance, check_is_fitted, the names guard, then print_node(0) *)
@@ -256,6 +271,7 @@ Fixpoint eval_rules (val : label N -> T) (r : rules T N) : option nat :=
   end.
 
 (* Tree.predict for one row x (x f = x[f]):
+     if node < 0 or node > self.n_nodes: raise ValueError
      if children_left[node] == -1: target[node]
      elif x[features[node]] <= thresholds[node]: predict(children_left[node]) else predict(children_right[node])
    (the code is vectorised over rows and recurses into both children with the row subsets; per
@@ -264,6 +280,7 @@ Fixpoint predict_node (fuel : nat) (t : tree T) (x : nat -> T) (node : nat) : op
   match fuel with
   | O => None
   | S fuel' =>
+    if (node <? 0) || (n_nodes t <? node) then None else
     do l <- nth_error (children_left t) node;
     if Z.eqb l (-1) then nth_error (target t) node
     else
